@@ -1,7 +1,8 @@
 // vcheck: one binary for all property checks.
-//   vcheck run <Cxx> [--tier quick|thorough] [--seed N]
-//   vcheck worker ...   (child process, started by run)
-//   vcheck replay <path>
+//
+//	vcheck run <Cxx> [--tier quick|thorough] [--seed N]
+//	vcheck worker ...   (child process, started by run)
+//	vcheck replay <path>
 package main
 
 import (
